@@ -71,6 +71,21 @@ func c17GenSet(seed int64, idx int, tag string) *yang.ModSet {
 	for _, m := range ms.Mods {
 		walk(m)
 	}
+	// key words written with the prefix of the list's own module (node-identifier = [prefix ":"] identifier)
+	for _, m := range ms.Mods {
+		pf := m.Find("prefix").Arg
+		m.Walk(func(s *yang.Stmt, _ int) {
+			if s.Kw == "key" && r.Chance(1, 4) {
+				ws := strings.Fields(s.Arg)
+				for i := range ws {
+					if i == 0 || r.Bool() {
+						ws[i] = pf + ":" + ws[i]
+					}
+				}
+				s.Arg = strings.Join(ws, " ")
+			}
+		}, 0)
+	}
 	// containers without any child (with and without presence), at the top of a module, inside
 	// containers and inside list entries: a path that ends on one is judged like any other container
 	n := 0
@@ -125,6 +140,9 @@ func buildRnodes(ms *yang.ModSet, mod *yang.Stmt, parent *yang.Stmt) []*rnode {
 			n.kids = buildRnodes(ms, mod, k)
 			if k.Kw == "list" {
 				kn := strings.Fields(k.Find("key").Arg)[0] // (the walker validates the token after the list name as the first key's value)
+				if i := strings.Index(kn, ":"); i >= 0 {
+					kn = kn[i+1:] // key-arg = node-identifier ...: the module's own prefix may be written
+				}
 				for _, c := range n.kids {
 					if c.s.Arg == kn {
 						n.key = c
